@@ -5,6 +5,7 @@
    core preserves the outcome at the same fuel.  Functions, classes, closures, generators, with/try, imports are NOT in
    the core: for them only the execution-differential oracle applies (DESIGN 5.1). *)
 From PM Require Import Model.Base Model.MiniPy Proofs.MiniPyProofs.
+From PM Require Model.ControlFlow Proofs.ControlFlowProofs.
 Open Scope bool_scope.
 
 (* RemovePass *)
@@ -28,6 +29,16 @@ Print Assumptions C01_rename_sound.
 Theorem C01_hoist_sound : forall A s fuel p, forallb (fresh_stmt A) p = true -> orel A s (run fuel p) (run fuel (hoist A s p)).
 Proof. exact hoist_sound. Qed.
 Print Assumptions C01_hoist_sound.
+
+(* RemoveExplicitReturnNone, on the control-flow core (Model/ControlFlow.v: function bodies of statement skeletons -
+   opaque simple statements, return / return None / return <value>, if/else, loops, try/else/finally, nested definitions -
+   with every branch decision drawn from an arbitrary oracle; exceptions are not modelled there): calling the rewritten body gives the same trace of effects, the same returned value and
+   the same remaining oracle as calling the original, for every body, oracle and fuel (fuel is only the recursion bound) *)
+Theorem C01_return_none_sound : forall body f o r,
+  (ControlFlow.call f o body = Some r -> ControlFlow.call (S f) o (ControlFlow.ret_body body) = Some r) /\
+  (ControlFlow.call f o (ControlFlow.ret_body body) = Some r -> ControlFlow.call (S (S f)) o body = Some r).
+Proof. intros. split; [apply ControlFlowProofs.ret_body_call_fwd | apply ControlFlowProofs.ret_body_call_bwd]. Qed.
+Print Assumptions C01_return_none_sound.
 
 (* non-vacuity: a loop that prints, a hoisted literal, a renaming *)
 Definition ex_prog : list mstmt :=
